@@ -57,10 +57,11 @@ def check(prop, tier, seed):
         raise ToolError(f'MC_Shutdown: {r.get("violated")} {r.get("never_taken")}\n' + r.get('output_tail', '')[-2500:])
     mc.append(r)
     if tier == 'thorough':
-        r = core.tlc_mc('MC_Shutdown', 'MC_Shutdown_big.cfg', workers=12, timeout=3000, xmx='16g')
-        if r.get('violated'):
-            raise ToolError(f'MC_Shutdown_big: {r.get("violated")}\n' + r.get('output_tail', '')[-2500:])
-        mc.append(r)
+        for big in ('MC_Shutdown_big.cfg', 'MC_Shutdown_huge.cfg'):
+            r = core.tlc_mc('MC_Shutdown', big, workers=12, timeout=3000, xmx='16g')
+            if r.get('violated'):
+                raise ToolError(f'{big}: {r.get("violated")}\n' + r.get('output_tail', '')[-2500:])
+            mc.append(r)
     mc.append(core.tlc_mc('MC_Shutdown', 'MC_Shutdown_nowait.cfg', workers=4, expect_violation='ResolveLate'))
     mc.append(core.tlc_mc('MC_Shutdown', 'MC_Shutdown_nodrain.cfg', workers=4, expect_violation='NoLoss'))
     n = 3000 if tier == 'thorough' else 500
